@@ -61,7 +61,8 @@ type hotSpec struct {
 // answered by the upstream (plain, signed, subnet-dependent, blocked at the
 // response stage for some profiles), allowed, blocked, rewritten.
 var hotNamesFake = []string{"one.example.", "two.example.", "three.example.org.", "four.test.", "five.test.",
-	"rblock.example.", "allow.example.", "blocked.example.", "p1-blocked.example.", "rewrite.example.", "cname.example."}
+	"rblock.example.", "allow.example.", "blocked.example.", "p1-blocked.example.", "rewrite.example.", "cname.example.",
+	"p5-blocked.example.", "flterr.example."}
 
 func (hs *hotSpec) cacheConf() *dnssvc.CacheConfig {
 	switch hs.Cache {
